@@ -227,6 +227,16 @@ func (ti *typeInfo) HasValue() bool {
 	return ti.Properties&propertyHasValue != 0
 }
 
+// roundedConstant returns the constant of ti rounded to the type of its value.
+// An untyped constant has to be rounded once to a float32 or complex64 type:
+// passing through float64 first rounds it twice.
+func (ti *typeInfo) roundedConstant() constant {
+	if c, err := ti.Constant.representedBy(ti.valueType); err == nil && c != nil {
+		return c
+	}
+	return ti.Constant
+}
+
 // setValue sets the value field with the ti's constant represented with the
 // type typ. If typ is nil or is an interface type, the constant is
 // represented with the type of ti. The valueType field is set with the type
@@ -266,9 +276,9 @@ func (ti *typeInfo) setValue(typ reflect.Type) {
 	case reflect.Uint, reflect.Uint8, reflect.Uint16, reflect.Uint32, reflect.Uint64, reflect.Uintptr:
 		ti.value = int64(int(ti.Constant.uint64()))
 	case reflect.Float32, reflect.Float64:
-		ti.value = ti.Constant.float64()
+		ti.value = ti.roundedConstant().float64()
 	case reflect.Complex64, reflect.Complex128:
-		c := ti.Constant.complex128()
+		c := ti.roundedConstant().complex128()
 		switch ti.valueType {
 		case complex64Type:
 			ti.value = complex64(c)
